@@ -136,6 +136,21 @@ def do_load(path, kind, ntask):
     return run_tasks(ntask, fn)
 
 
+def do_load_mean(path):
+    """ResidualSampleList.load_mean (a classmethod without communicator) on the current directory."""
+    import nifty.cl as ift
+    try:
+        obj = ift.ResidualSampleList.load_mean(path)
+    except BaseException as e:  # noqa
+        return ["exc", exc_class(e)]
+    try:
+        if isinstance(obj, list):
+            return ["ok", ["resid", vals_of(obj[0]), bool(obj[1])]]
+        return ["ok", ["mean", vals_of(obj), False]]
+    except BaseException:  # noqa   (not a pickled field: the model never returns such an object)
+        return ["ok", ["bad", repr(obj)[:80], False]]
+
+
 def run_history(h, workdir):
     """Execute a history on a fresh directory; returns the list of step observations."""
     shutil.rmtree(workdir, ignore_errors=True)
@@ -155,7 +170,8 @@ def run_history(h, workdir):
                 res = do_save(path, kind, multi, op[1], op[2], op[3])
             else:
                 res = do_load(path, kind, op[1])
-            steps.append({"op": op, "before": before, "after": snapshot(workdir, base), "res": res})
+            steps.append({"op": op, "before": before, "after": snapshot(workdir, base), "res": res,
+                          "lm": do_load_mean(path)})
             if any(r[0] == "exc" and r[1] == "Deadlock" for r in res):
                 break           # a task blocked: the rest of the history is meaningless (and slow)
     shutil.rmtree(workdir, ignore_errors=True)
@@ -192,6 +208,8 @@ def direct_failures(h, steps):
                     last = {"global": [[a - b if ng else a + b for a, b in zip(m, expected_vals(k, multi))] for k, ng in flat],
                             "n": len(flat), "mean": m,
                             "local": [[expected_vals(k, multi), bool(ng)] for k, ng in flat]}
+                    if "lm" in s and s["lm"] != ["ok", ["mean", m, False]]:
+                        out.append("step %d: load_mean after a successful ResidualSampleList.save gives %r, saved mean %r" % (i, s["lm"], m))
             else:
                 if any(oks):
                     out.append("step %d: save succeeded on some tasks and raised on others" % i)
@@ -332,6 +350,15 @@ def cres(r, payload):
         return "(Ret %s)" % payload(r[1])
     cls = r[1] if r[1] in ("RuntimeError", "ValueError") else "OtherError"
     return "(Raise %s)" % cls
+
+
+def load_mean_check(h, s):
+    """model load_mean on the directory observed after the step vs. ResidualSampleList.load_mean"""
+    def payload(p):
+        return "(Resid %s %s)" % (cval(p[1]), C.cbool(p[2])) if p[0] == "resid" else "(MeanC %s)" % cval(p[1])
+    if s["lm"][0] == "ok" and s["lm"][1][0] == "bad":
+        return "false"
+    return "load_mean_ok %s %s %s" % (cdir(s["after"]), cname(h["base"]), cres(s["lm"], payload))
 
 
 def step_check(h, s):
@@ -611,7 +638,7 @@ class C26(C.Check):
     trusted_base = [
         "Coq 8.16.1 kernel (coqc; vm_compute and primitive floats for the correspondence evaluation); the theorems are closed under the global context",
         "tr/c26_pyfun.py + tr/c26_gen.py: Python ast -> Gallina for shareRange, _consecutive_length, _sample_file_name, the mean file name, the listing pattern, the index lambda and StatCalculator (fail closed; the translation is additionally exercised by the correspondence)",
-        "hand-written model coq/C26/Model.v of the directory, _save_to_disk, _ensure_proper_sample_list_ending, the save loops, the control flow of _list_local_sample_files/load, sample_stat/average (tied by correspondence)",
+        "hand-written model coq/C26/Model.v of the directory, _save_to_disk, _ensure_proper_sample_list_ending, the save loops, the control flow of _list_local_sample_files/load/load_mean, sample_stat/average (tied by correspondence)",
         "coq/C26/Prelude.v: split, int(), the regular-expression fragment (literal, '.', '[0-9]+', '$'), f-string of a non-negative int via Coq's decimal printer",
         "pickle round trip of Field/MultiField objects and the operating system's directory semantics (a directory is modelled as a finite map)",
         "harness/fakecomm.py threads standing in for MPI tasks (no libmpi in the sandbox); tasks of one save write pairwise different files (proved from the index arithmetic), the model runs them in rank order",
@@ -657,6 +684,9 @@ class C26(C.Check):
             for si, s in enumerate(steps):
                 checks.append(step_check(h, s))
                 where.append(("history", hi, si))
+                if "lm" in s:
+                    checks.append(load_mean_check(h, s))
+                    where.append(("history", hi, si))
         # statistics, bit for bit
         self.stats = []
         ns = 12 if ctx.quick else 120
@@ -759,7 +789,7 @@ class C26(C.Check):
                 kinds[key] = kinds.get(key, 0) + 1
         res.coverage.update({
             "evaluations": len(checks), "distinct_nontrivial": distinct,
-            "rule": "history = stale files + 3-8 save/load steps (lengths 0-6, 1-4 saving tasks with arbitrary distribution, 1-5 loading tasks, plain/residual, Field/MultiField, overwrite on/off); non-trivial = contains a save distributed over more than one task; distinct by (kind, multi, per-step task counts, number of stale files).  Plus %d sample_stat/average cases x 3 pixels (bit-exact), %d HDF5 cases (each: all 7 samples/mean/std flag combinations, operator none/linear/square/exp, plain/residual, 1-3 tasks; file contents bit-exact against the model fed with the exported operator outputs), %d shareRange and consecutive_length cases" % (ns, nh5, nsr),
+            "rule": "history = stale files + 3-8 save/load steps (lengths 0-6, 1-4 saving tasks with arbitrary distribution, 1-5 loading tasks, plain/residual, Field/MultiField, overwrite on/off; after every step ResidualSampleList.load_mean vs the model's load_mean on the observed directory); non-trivial = contains a save distributed over more than one task; distinct by (kind, multi, per-step task counts, number of stale files).  Plus %d sample_stat/average cases x 3 pixels (bit-exact), %d HDF5 cases (each: all 7 samples/mean/std flag combinations, operator none/linear/square/exp, plain/residual, 1-3 tasks; file contents bit-exact against the model fed with the exported operator outputs), %d shareRange and consecutive_length cases" % (ns, nh5, nsr),
             "samples": [{"history": self.hist[k][0]} for k in range(min(2, len(self.hist)))],
             "input_distribution": {"histories": len(self.hist), "steps": nsteps, "step_outcomes": kinds,
                                    "stat_cases": ns, "shareRange_cases": nsr,
